@@ -20,8 +20,8 @@ pub static DEF: PropDef = PropDef {
     level: "exploration",
     rule: "each case: one input — valid documents mixing known- and unknown-size masters at several depths, the same with one or two known elements of the specification inserted at random (mostly invalid) places before hostile reference encoding, 1-3 byte/structure mutations (subtree copies and size rewrites are the productive ones), truncations, adversarial headers, mid-document suffixes — parsed by the real iterator with NO errors tolerated through a scripted short-read source. The Ok items before the first error are replayed against an independent checker: every End matches the innermost open master (implied ancestors of a mid-document start included, reported at offset 0); no raw tags; once the first non-global element has fixed the position every element's declared path must match the chain of open masters (reference matcher); every element lies inside every enclosing known-size master; a known-size master's End comes exactly when its range is exhausted (earlier only at end of input); an unknown-size master's End must be justified by the next element (sibling / ancestor instance / root, transitively through directly enclosing unknown-size masters; or — for global masters — an element that is not a valid child of the open chain but is valid once the closed masters are removed), by an exhausted known-size ancestor, or by end of input; on a clean end the stack must be empty (every open master got an End, innermost first, never a Start). distinct = (input kind, max depth, unknown-size masters seen, checks exercised); non-trivial iff >= 2 nesting levels were open at some point and >= 1 path check happened under an unknown-size master.",
     assumptions: &["reference path semantics (spec.rs)", "items after the first error are not judged", "parses are unbuffered (Full items are C08's subject)"],
-    cases_quick: 100_000,
-    cases_thorough: 1_500_000,
+    cases_quick: 1_000_000,
+    cases_thorough: 8_000_000,
     floors: &[("path_checks", 100_000), ("path_checks_under_unknown_size_master", 5_000), ("containment_checks", 50_000), ("ends_checked", 50_000), ("unknown_size_closings_justified", 2_000), ("mid_document_starts", 500), ("distinct_nontrivial", 500)],
     exhaustive_note: None,
     run,
